@@ -12,11 +12,12 @@ def run(rep, fb, tier):
     run_family("C01", rep, fb, tier, EXTRAS)
 
 
-from ..rules import guards, forward
+from ..rules import guards, forward, fintab
 
 
 EXTRAS = [
     lambda rep, fb, tier: guards.rule_getitem_at(rep, fb),
     lambda rep, fb, tier: guards.rule_invariants(rep, fb),
+    lambda rep, fb, tier: fintab.rule_rangeslice(rep, fb),
     lambda rep, fb, tier: forward.rule_same_name(rep, fb, select=lambda f: "getitem" in f["name"] or f["name"] in ("carry", "asslice"), floor=300, name="FORWARD.same-name:getitem"),
 ]
